@@ -155,6 +155,15 @@ func (i *interpreter) jsonUnmarshal(b value, target value) value {
 		*ptr = c
 		return iface{}
 	}
+	// any JSON value into an empty interface: a string stays a string (numbers
+	// would become float64 in the real decoder: not modelled)
+	if it, ok := X.Underlying().(*types.Interface); ok && it.Empty() {
+		if b, ok := doc.t.Underlying().(*types.Basic); ok && b.Info()&types.IsString != 0 {
+			*ptr = iface{t: types.Typ[types.String], v: cp}
+			return iface{}
+		}
+		panic(engineError{"json.Unmarshal of a non-string document into interface{}"})
+	}
 	return i.newError(fmt.Sprintf("json: cannot unmarshal %s into %s (JSON model compares Go types)", doc.t, X), nil)
 }
 
@@ -578,7 +587,7 @@ func init() {
 				d.done = true
 				return i.jsonUnmarshal(blob, a[1])
 			}
-			panic(engineError{"json.Decoder over an unmodelled reader"})
+			return i.jsonDecodeFromReader(d, a[1])
 		},
 		"encoding/json.NewEncoder": func(fr *frame, a []value) value {
 			var cell value = &native{&jsonDecoder{r: a[0]}}
@@ -742,6 +751,15 @@ func ioCopy(fr *frame, a []value) value {
 				st.hex = i.contentHash(sh.node)
 			}
 			return tuple{sh.node.size, iface{}}
+		}
+	}
+	if _, ok := nativeOf[*creader](src); !ok {
+		if _, ok := nativeOf[*fhandle](src); !ok {
+			if _, ok := nativeOf[*fhandle](dst); !ok {
+				if _, ok := nativeOf[*md5state](dst); !ok {
+					return i.genericCopy(dst, src)
+				}
+			}
 		}
 	}
 	panic(engineError{fmt.Sprintf("io.Copy between unmodelled endpoints (%T -> %T) at %s", src, dst, i.where())})
